@@ -3,6 +3,10 @@ use crate::fields::*;
 use crate::parser::utils::*;
 use serde::{Deserialize, Serialize};
 
+/// Two amounts are equal when they differ by less than half of the smallest unit any currency
+/// has (four decimals); 0.01 would let a difference of one cent pass.
+const AMOUNT_EPSILON: f64 = 0.00005;
+
 /// Sequence B - Transaction details
 #[derive(Debug, Clone, Serialize, Deserialize, PartialEq)]
 #[cfg_attr(feature = "jsonschema", derive(schemars::JsonSchema))]
@@ -745,7 +749,8 @@ impl MT107 {
                 let amount_33b = field_33b.amount;
 
                 // Both currency and amount must not be the same
-                if currency_32b == currency_33b && (amount_32b - amount_33b).abs() < 0.01 {
+                if currency_32b == currency_33b && (amount_32b - amount_33b).abs() < AMOUNT_EPSILON
+                {
                     errors.push(SwiftValidationError::content_error(
                         "D21",
                         "33B",
@@ -843,7 +848,7 @@ impl MT107 {
             // Field 19 should be present and equal to sum
             if let Some(ref field_19) = self.field_19 {
                 let field_19_amount = field_19.amount;
-                if (field_19_amount - sum_of_amounts).abs() >= 0.01 {
+                if (field_19_amount - sum_of_amounts).abs() >= AMOUNT_EPSILON {
                     errors.push(SwiftValidationError::content_error(
                         "C01",
                         "19",
@@ -867,7 +872,7 @@ impl MT107 {
         } else {
             // No charges - field 32B of Sequence C should equal sum, field 19 must not be present
             let settlement_amount = self.field_32b.amount;
-            if (settlement_amount - sum_of_amounts).abs() >= 0.01 {
+            if (settlement_amount - sum_of_amounts).abs() >= AMOUNT_EPSILON {
                 errors.push(SwiftValidationError::content_error(
                     "D80",
                     "32B",
